@@ -1,7 +1,7 @@
 """Per-property configuration: which binary/flavour, how many cases, gates, evidence text."""
 
 RUNNER_TUS = {
-    'runner': ['rc_driver.cpp', 'pbt_movegen.cpp'],
+    'runner': ['rc_driver.cpp', 'pbt_movegen.cpp', 'pbt_position.cpp', 'pbt_moves.cpp'],
 }
 
 ORACLE_ASSUMPTION = ('ref/refchess.h (independent mailbox rules oracle) is correct; it is validated on every run by '
@@ -33,6 +33,124 @@ PROPS = {
                       min_nontrivial=100000),
     ),
 }
+
+PBT = 'property-based testing (rapidcheck choice tapes, structured generators, shrinking)'
+
+PROPS['C02'] = dict(
+    level='exploration',
+    technique=PBT + '; differential (FEN after do_move) against the rules oracle',
+    level_text=('Generated (position, move) pairs and whole games: the engine plays each move through parse_uci + do_move (the path '
+                '`position ... moves` uses) and its six-field FEN is compared with the oracle\'s make(); games are compared after every ply.'),
+    level_note=ORACLE_ASSUMPTION + '; FEN en-passant convention = square set after every double push (what the engine prints).',
+    rule=('Cases: (a) every legal move of a generated root and of its children (budgeted), (b) G-game histories of up to 250 (quick) / 600 (thorough) plies '
+          'with shuffle / capture / quiet phases. evaluations = (position, move) pairs compared on all six FEN fields. Non-trivial = distinct (position, move) '
+          'where the move is a castle, en passant, promotion, double push, king/rook move with rights, or captures a home rook whose right still exists.'),
+    assumptions=[ORACLE_ASSUMPTION],
+    quick=dict(cases=220, shards=16, scale=8,
+               gates={'c02:castle_white_short_clock>0': 5, 'c02:castle_white_long_clock>0': 5, 'c02:castle_black_short_clock>0': 5,
+                      'c02:castle_black_long_clock>0': 5, 'c02:ep_by_white': 10, 'c02:ep_by_black': 10, 'c02:promo_q': 20, 'c02:promo_n': 20,
+                      'c02:promo_r_capture': 10, 'c02:capture_home_rook_with_right': 10, 'c02:games': 300},
+               min_nontrivial=5000),
+    thorough=dict(cases=5000, shards=16, scale=10, gates={'c02:games': 5000}, min_nontrivial=100000),
+)
+PROPS['C03'] = dict(
+    level='exploration',
+    technique=PBT + '; model-based (snapshot stack) over generated do/undo/null-move operation lists',
+    level_text=('Stateful generation: random tree walks of do / undo / null-move operations on one live Position; a stack of full snapshots '
+                '(FEN, both keys, 64 squares, piece-list multisets, repetition/draw answers, static evaluation, generated move set) is the model; '
+                'every undo must restore the snapshot, the line replayed from scratch must agree, perft must leave the position untouched.'),
+    level_note='Null moves only where the search can make them (not in check, never twice in a row). Static evaluation via one long-lived evaluator (cache never cleared here).',
+    rule=('One case = a root position + up to 300 (quick) / 600 (thorough) operations, depth <= 40. evaluations = undo comparisons (+ perft / rebuild brackets). '
+          'Non-trivial = distinct walks (root, move list) that contain an undone castle / en passant / promotion or a null move with an en-passant square pending and reach depth >= 3.'),
+    assumptions=['snapshot equality uses piece lists as multisets (list order may legitimately change)'],
+    quick=dict(cases=140, shards=16, scale=8,
+               gates={'c03:castle': 50, 'c03:ep': 20, 'c03:promo_capture': 20, 'c03:null': 200, 'c03:null_with_ep_pending': 5, 'c03:depth>=10': 100},
+               min_nontrivial=500),
+    thorough=dict(cases=3000, shards=16, scale=10, gates={'c03:null_with_ep_pending': 50}, min_nontrivial=10000),
+)
+PROPS['C04'] = dict(
+    level='exploration',
+    technique=PBT + '; from-scratch recomputation, transposition buckets, metamorphic key changes',
+    level_text=('Every position visited in generated games (with null-move probes) is checked: incremental key == key of Position(fen()); '
+                'a process-wide map position->key / key->position over all cases enforces "same position => same key, different position => different key" '
+                '(also for pawn placement <-> pawn key); explicit move-order permutations create transpositions; metamorphic FEN edits must change the key.'),
+    level_note='Keys are random per process; the verdict uses only (in)equalities inside one process. A true 64-bit collision (p < 1e-7 per run) would be re-tested by the 3x replay rule.',
+    rule=('evaluations = key observations. Non-trivial = distinct positions reached by at least two different paths (transposition confirmed) or probed with a null move while an en-passant square was pending.'),
+    assumptions=[ORACLE_ASSUMPTION],
+    quick=dict(cases=260, shards=16, scale=8,
+               gates={'c04:transposition_confirmed': 300, 'c04:null_after_double_push': 20, 'c04:permutation_line': 200, 'c04:rook_captured': 10,
+                      'c04:ep_capture': 5, 'c04:meta_one_castling_right': 100},
+               min_nontrivial=300),
+    thorough=dict(cases=6000, shards=16, scale=8, min_nontrivial=5000),
+)
+PROPS['C07'] = dict(
+    level='exploration',
+    technique=PBT + '; differential over generated game histories against the rules oracle',
+    level_text=('Oracle-driven legal games (phases of reversible shuffling, capture hunts, quiet clock run-ups; FEN starts with non-zero clocks) are mirrored '
+                'on the engine with do_move; at every ply all eight predicates are compared with the answers computed from the full history.'),
+    level_note=ORACLE_ASSUMPTION + '; histories stay inside legal games: clock <= 150, no position more than five times, <= 700 plies.',
+    rule=('evaluations = plies checked (8 predicates each). Non-trivial = distinct (position, occurrence count, clock) where some predicate is true '
+          'or the placement recurred with different rights / ep square.'),
+    assumptions=[ORACLE_ASSUMPTION],
+    quick=dict(cases=60, shards=16, scale=12,
+               gates={'c07:threefold': 30, 'c07:threefold_nonconsecutive': 3, 'c07:clock_reaches_100': 5, 'c07:checkmate': 5, 'c07:stalemate': 2,
+                      'c07:insufficient_reached_by_capture': 5, 'c07:same_placement_different_rights_or_ep': 5},
+               min_nontrivial=2000),
+    thorough=dict(cases=1500, shards=16, scale=16, min_nontrivial=50000),
+)
+PROPS['C15'] = dict(
+    level='exploration',
+    technique=PBT + '; differential: predicates vs the outcome of playing the move on the oracle',
+    level_text='Every legal move of generated roots and sampled children: move_is_capture / move_is_quiet / move_gives_check compared with what the oracle observes after making the move.',
+    level_note=ORACLE_ASSUMPTION,
+    rule=('evaluations = (position, move) pairs. Non-trivial = distinct pairs where the move is special (castle, promotion, en passant) or gives check or captures.'),
+    assumptions=[ORACLE_ASSUMPTION],
+    quick=dict(cases=400, shards=16, scale=6,
+               gates={'c15:promo_check_by_new_piece': 20, 'c15:castle_checking': 3, 'c15:castle_not_checking': 50, 'c15:ep_discovered_check': 1,
+                      'c15:discovered_check': 50, 'c15:double_check': 10},
+               min_nontrivial=20000),
+    thorough=dict(cases=8000, shards=16, scale=6, gates={'c15:ep_discovered_check': 10, 'c15:castle_not_checking_king_on_old_rook_file': 5}, min_nontrivial=400000),
+)
+PROPS['C16'] = dict(
+    level='exploration',
+    technique=PBT + '; round trips (uci text, FEN) + exhaustive enumeration of the move encoding',
+    level_text='parse_uci(uci(m)) == m and text equality with the oracle for every generated legal move; Position(p.fen()) equals p in every observable; all 64x64x5 encodings + castling codes decoded exhaustively.',
+    level_note=ORACLE_ASSUMPTION + ' (for the expected move text only).',
+    rule=('evaluations = round trips. Non-trivial = distinct special moves (castles, promotions) and FENs with rights / ep / non-initial clocks. '
+          'Encoding space (20,480 + 2 codes) is enumerated completely in every shard.'),
+    assumptions=['half-move clocks <= 150 and full-move numbers <= 3000 (legal games)'],
+    quick=dict(cases=300, shards=16, scale=6,
+               gates={'c16:castle_e1g1': 10, 'c16:castle_e1c1': 10, 'c16:castle_e8g8': 10, 'c16:castle_e8c8': 10, 'c16:promo_q': 20, 'c16:promo_n': 20,
+                      'c16:fullmove>200': 50, 'c16:encoding_exhaustive_pass': 16},
+               min_nontrivial=3000),
+    thorough=dict(cases=6000, shards=16, scale=6, min_nontrivial=60000),
+)
+PROPS['C17'] = dict(
+    level='exploration',
+    technique=PBT + '; round trip parse_san(san(m)) == m and pairwise uniqueness of SAN strings',
+    level_text='For every legal move of generated positions (incl. many-like-piece swarms, >128-move positions, checking castles, promotions) the printed SAN must parse back to exactly that move and no two legal moves may print alike; ASan watches the fixed arrays inside san().',
+    level_note='Only the engine\'s own printer/parser pair is compared (the property is about that pair), no external SAN grammar.',
+    rule='evaluations = moves round-tripped. Non-trivial = distinct moves needing disambiguation, castles, promotions.',
+    assumptions=[],
+    quick=dict(cases=160, shards=16, scale=6,
+               gates={'c17:disambiguated_file_and_rank': 20, 'c17:castle_with_suffix': 2, 'c17:promotion_with_suffix': 10},
+               min_nontrivial=3000),
+    thorough=dict(cases=3000, shards=16, scale=6, gates={'c17:more_than_128_moves': 3, 'c17:castle_with_suffix': 20}, min_nontrivial=60000),
+)
+PROPS['C18'] = dict(
+    level='exploration',
+    technique=PBT + '; differential against an independent implementation of the Polyglot key',
+    level_text='Engine book key vs ref/refpolyglot.h (written from the format description; constants in specification order) on generated positions: all 16 right subsets, en-passant with capturer left/right/both/none/pinned on every file, games.',
+    level_note=('Trusted base: ref/polyglot_random.h is a pinned transcription (specification order) of the constants at commit 8ca830c, cross-checked by the nine published '
+                'test keys through the independent routine and by the anchor constants 0,768..780; a constant already mistyped at the pinned commit and untouched by the nine vectors would go unnoticed.'),
+    rule='evaluations = keys compared. Non-trivial = distinct positions with castling rights or an en-passant square. classes report how many of the 768+4+8 constants were exercised.',
+    assumptions=['ref/polyglot_random.h provenance as stated in level_note'],
+    quick=dict(cases=400, shards=16, scale=6,
+               gates={'c18:ep_capturer_left': 20, 'c18:ep_capturer_right': 20, 'c18:ep_capturer_both': 5, 'c18:ep_no_capturer': 20, 'c18:ep_on_rook_file': 5,
+                      'c18:rights_count_4': 50, 'c18:rights_count_1': 50},
+               min_nontrivial=10000),
+    thorough=dict(cases=8000, shards=16, scale=6, min_nontrivial=200000),
+)
 
 HOOK_COMMITS = []
 
